@@ -14,6 +14,7 @@ Require Import Regen.Ledger.Amount Regen.Ledger.MapSum Regen.Ledger.Inv Regen.Le
 Require Import Regen.Ledger.InvMarketLib Regen.Ledger.InvMarketOrders Regen.Ledger.InvMarketPrune Regen.Ledger.InvMarketUpdate Regen.Ledger.InvMarket Regen.Ledger.InvMarketHalt.
 Require Import Regen.Ledger.InvAllLib Regen.Ledger.InvAllRun Regen.Ledger.InvAllOrders Regen.Ledger.InvAllProps.
 Require Import Regen.Ledger.InvAdmin Regen.Ledger.InvBase Regen.Ledger.InvBasket.
+Require Import Regen.Ledger.SpellingModel Regen.Ledger.Spelling.
 Import ListNotations RecordSetNotations.
 Local Open Scope Z_scope.
 
@@ -54,3 +55,9 @@ Print Assumptions C04_begin_block.
 Example C04_genesis_hypotheses_satisfiable : Inv_run empty_state /\ Inv_all empty_state.
 Proof. exact genesis_hyps_satisfiable. Qed.
 Print Assumptions C04_genesis_hypotheses_satisfiable.
+
+(* ---- address spellings (Ledger/Spelling.v): monotonicity along histories whose messages use any bech32 spelling ---- *)
+Theorem C04_monotone_along_histories_in_any_spelling : forall g s1 s2,
+  Inv_run g -> reaches_sp g s1 -> reaches_sp s1 s2 -> mono_rel s1 s2.
+Proof. exact reachable_sp_monotone. Qed.
+Print Assumptions C04_monotone_along_histories_in_any_spelling.
